@@ -41,7 +41,7 @@ pub fn gen_spec(g: &mut Gen, kinds: &[&str]) -> Value {
 }
 
 pub fn spec_of(v: &Value) -> Spec {
-    Spec { kind: ps(v, "kind").to_string(), n_chains: pus(v, "n_chains"), seed: pu(v, "seed"), pos_seed: pu(v, "pos_seed"), n_collect: pus(v, "n_collect"), n_discard: pus(v, "n_discard"), more_calls: v.get("more_calls").and_then(|m| m.as_array()).map(|a| a.iter().map(|c| (c[0].as_u64().unwrap_or(1) as usize, c[1].as_u64().unwrap_or(0) as usize)).collect()).unwrap_or_default() }
+    Spec { kind: ps(v, "kind").to_string(), n_chains: pus(v, "n_chains"), seed: pu(v, "seed"), pos_seed: pu(v, "pos_seed"), n_collect: pus(v, "n_collect"), n_discard: pus(v, "n_discard"), more_calls: v.get("more_calls").and_then(|m| m.as_array()).map(|a| a.iter().map(|c| (c[0].as_u64().unwrap_or(1) as usize, c[1].as_u64().unwrap_or(0) as usize)).collect()).unwrap_or_default(), prior: v.get("prior").and_then(|m| m.as_array()).map(|c| (c[0].as_u64().unwrap_or(1) as usize, c[1].as_u64().unwrap_or(0) as usize)) }
 }
 
 pub fn shrink_spec(v: &Value) -> Vec<Value> {
